@@ -118,8 +118,16 @@ func VP_C17_nbt_forms() {
 // the chat-type header (id, sender, optional target) round-trips with and without a target.
 func VP_C17_type_header() {
 	t := Type{ID: vp.Int32(), SenderName: Text(vpText(vp.Choice(3)))}
-	if vp.Bool() {
+	switch vp.Choice(4) {
+	case 1:
 		tn := Text(vpText(1))
+		t.TargetName = &tn
+	case 2:
+		// a target that is present but blank, or carries only a style
+		tn := Message{Bold: vp.Bool(), Color: []string{"", "red"}[vp.Choice(2)]}
+		t.TargetName = &tn
+	case 3:
+		tn := Message{Translate: "chat.type.text"}
 		t.TargetName = &tn
 	}
 	var w bytes.Buffer
@@ -134,7 +142,50 @@ func VP_C17_type_header() {
 	vp.Assert(got.ID == t.ID && got.SenderName.Text == t.SenderName.Text, "id and sender round trip")
 	vp.Assert((got.TargetName == nil) == (t.TargetName == nil), "target presence round trip")
 	if got.TargetName != nil && t.TargetName != nil {
-		vp.Assert(got.TargetName.Text == t.TargetName.Text, "target round trip")
+		vp.Assert(got.TargetName.Text == t.TargetName.Text && got.TargetName.Bold == t.TargetName.Bold && got.TargetName.Color == t.TargetName.Color && got.TargetName.Translate == t.TargetName.Translate, "target round trip")
 	}
+	vp.Cover("end")
+}
+
+// vpShortWriter accepts limit bytes and then fails.
+type vpShortWriter struct {
+	n, limit int
+}
+
+func (w *vpShortWriter) Write(p []byte) (int, error) {
+	if w.n+len(p) <= w.limit {
+		w.n += len(p)
+		return len(p), nil
+	}
+	k := w.limit - w.n
+	w.n = w.limit
+	return k, bytes.ErrTooLarge
+}
+
+// the NBT form of a component does not depend on what was written before in the
+// process: after a write that failed at any offset (failing writer) the next
+// component is written as the same single well-formed value and reads back.
+func VP_C17_nbt_history() {
+	first := vpMkMessage(1)
+	var probe bytes.Buffer
+	_, err := first.WriteTo(&probe)
+	vp.Assert(err == nil, "WriteTo err==nil")
+	k := vp.Choice(3)
+	limit := []int{0, 1, probe.Len() - 1}[k]
+	_, err = first.WriteTo(&vpShortWriter{limit: limit})
+	vp.Assert(err != nil, "a failing writer is reported")
+	m := vpMkMessage(1)
+	var w bytes.Buffer
+	n, err := m.WriteTo(&w)
+	vp.Assert(err == nil, "WriteTo err==nil")
+	wire := append([]byte{}, w.Bytes()...)
+	vp.Assert(n == int64(len(wire)), "WriteTo count")
+	st, end := vp.RefNBT(wire, 1, 10, 0)
+	vp.Assert(len(wire) > 0 && wire[0] == 10 && st == vp.NBTComplete && end == len(wire), "NBT form is a single well-formed value")
+	vp.SizeBound(64)
+	var got Message
+	rn, err := got.ReadFrom(bytes.NewReader(wire))
+	vp.Assert(err == nil && rn == int64(len(wire)), "ReadFrom err==nil")
+	vpSameMsg(got, m, "component unchanged by the NBT round trip")
 	vp.Cover("end")
 }
